@@ -42,6 +42,7 @@ type ContentHeader struct {
 type ConfirmMeta struct {
 	ChanID           uint16
 	ConnID           uint64
+	ChanInstance     uint64
 	DeliveryTag      uint64
 	ExpectedConfirms int
 	ActualConfirms   int
